@@ -42,6 +42,10 @@ BUILTIN_PROBES = [
     ('import sys', [('goto', 'import sy', None)]),
     ('import json', [('infer', 'import js', None)]),
     ('import ', [('complete', 'import ', None)]),
+    ('1.5', [('infer', '1.', None)]),
+    ('le', [('complete', 'le', None)]),
+    ('abs(-1)', [('infer', 'abs(-1', None)]),
+    ('"x".join(["a"])', [('infer', 'joi', None)]),
 ]
 
 
@@ -58,6 +62,7 @@ def gen_scenario(rng, sid):
         for text, probes in rng.sample(BUILTIN_PROBES, rng.randint(1, 2)):
             b.add(text, probes)
         pathed = rng.random() < 0.5
+        rng.shuffle(b.probes)
         scripts.append({'sid': 's%d' % j, 'code': b.text, 'probes': b.probes,
                         'path': ('buf%d.py' % j) if pathed else None})
     ops = []
@@ -99,9 +104,21 @@ def gen_scenario(rng, sid):
                 ops.append({'op': 'drop', 'sid': q[0]})
                 if rng.random() < 0.5:
                     ops.append({'op': 'gc'})
-    # final: drop everything, collect, census
+    # drop everything in one batch, then an epilogue of fresh Scripts (so that a death
+    # around the batch is followed by the Script that discovers it and by one that must
+    # have fully recovered), then the census
     for s in scripts:
         ops.append({'op': 'drop', 'sid': s['sid']})
+    for j in range(2):
+        b = world.gen_probe_buffer(rng, mods, max_probes=2)
+        for text, probes in rng.sample(BUILTIN_PROBES, 2):
+            b.add(text, probes)
+        rng.shuffle(b.probes)
+        e = {'sid': 'e%d' % j, 'code': b.text, 'probes': b.probes[:3], 'path': None}
+        ops.append(mk_script(e))
+        for p in e['probes']:
+            ops.append({'op': 'probe', 'sid': e['sid'], 'p': p})
+        ops.append({'op': 'drop', 'sid': e['sid']})
     ops.append({'op': 'census'})
     return {'id': sid, 'init': init, 'ops': ops, 'hashseed': rng.randint(0, 3),
             'env': env, 'mode': mode, 'gc_auto': rng.random() < 0.2}
@@ -282,6 +299,7 @@ class C14(base.Engine):
     }
 
     def execute(self, case):
+        driver.begin_case(case)
         ref = case.get('_ref')
         if ref is None:
             ref = run_one(case, True)
@@ -367,7 +385,14 @@ class C14(base.Engine):
             v = dict(r.choice(phase_variants()))
             v['req'] = r.randint(lo, max(lo, nreq))
             return v
-        if s['mode'] == 'lifecycle' or kind < 0.45:
+        batch = _batch_drop_positions(ops)
+        if batch and r.random() < 0.25:
+            # the helper dies unnoticed right before a batch of discarded Scripts is
+            # collected: their deletion requests are pending when the death is discovered
+            i, j = r.choice(batch)
+            ops.insert(j, {'op': 'gc'})         # the discarded Scripts are finalised before anybody notices the death
+            ops.insert(i, {'op': 'kill_helper'})
+        elif s['mode'] == 'lifecycle' or kind < 0.45:
             faults.append(one_fault())
         elif kind < 0.6:
             pos = r.randrange(len(ops))
@@ -481,6 +506,28 @@ class C14(base.Engine):
             'probes_answered_identically_after_recovery': recovered,
             'simulated_time_s': None,
         }
+
+
+def _batch_drop_positions(ops):
+    """indices i such that ops[i:] starts with >= 2 drops (gc ops allowed in
+    between) before the next probe"""
+    out = []
+    for i, o in enumerate(ops):
+        if o['op'] != 'drop':
+            continue
+        n = 0
+        j = i
+        for k, p in enumerate(ops[i:], i):
+            if p['op'] == 'drop':
+                n += 1
+                j = k + 1
+            elif p['op'] in ('gc', 'advance'):
+                continue
+            else:
+                break
+        if n >= 2:
+            out.append((i, j))
+    return out
 
 
 def _vname(v):
